@@ -369,6 +369,8 @@ struct ParserState {{
     current: Token,
     truncation_mark: MarkTruncation,
     diag_count: usize,
+    error_node: Option<MarkOpened>,
+    error_since_advance: bool,
 }}
 pub struct Parser<'a> {{
     cst: Cst<'a>,
@@ -525,6 +527,8 @@ impl<'a> Parser<'a> {{
             current: self.current,
             truncation_mark: self.cst.data.mark_truncation(),
             diag_count: diags.len(),
+            error_node: self.error_node,
+            error_since_advance: self.error_since_advance,
         }}
     }}
     fn set_state(
@@ -541,6 +545,13 @@ impl<'a> Parser<'a> {{
             }}
         }}
         self.cst.data.truncate(state.truncation_mark.clone());
+        if let (Some(error_node), None) = (state.error_node, self.error_node) {{
+            // the pending error node was closed inside the abandoned attempt: reopen it
+            self.delete_node(Rule::Error, NodeRef(error_node.0));
+            self.cst.data.nodes[error_node.0] = Node::Rule(Rule::Error, 0.into());
+        }}
+        self.error_node = state.error_node;
+        self.error_since_advance = state.error_since_advance;
     }}
     fn create_node(
         &mut self,
